@@ -66,7 +66,7 @@ CHECKS = {
    note="grid points only; the iceberg tranche is checked as the inequality the property states",
    tech="bounded-exhaustive enumeration of the input grid against the specification predicates"),
  "C09": dict(engine="gridmc", cat="fault_enumeration", ref="5 (C09), 3.4",
-   text="For each seed level (all templates, two-order books, boundary-value books with both id formats, and 40- / 70-order levels whose packages exceed 4 and 8 KiB at every alignment) every truncation point, every single-character deletion / substitution / insertion with 97 characters at every offset of the package JSON, every structural edit (drop / duplicate / swap orders, delete any field, rewrite any number or enum string, version, checksum variants, envelope stripped / re-nested), pairs of structural edits and in-memory edits of the package value are executed through the real restore path. Also: levels whose orders share a timestamp, written in every listing order (6 / 24-120 sequences), ids rewritten as a whole into the other id format / another spelling / another id; the untouched package must restore the listed sequence (first visits of a draining match). A restore must fail, or yield exactly the snapshotted content (price, aggregates, every order field, re-snapshot text, maker sequence of a draining match); prefixes and unsupported versions must fail.",
+   text="For each seed level (all templates, two-order books, boundary-value books with both id formats, and 40- / 70-order levels whose packages exceed 4 and 8 KiB at every alignment) every truncation point, every single-character deletion / substitution / insertion with 97 characters at every offset of the package JSON, every structural edit (drop / duplicate / swap orders, delete any field, rewrite any number or enum string, version, checksum variants, envelope stripped / re-nested), pairs of structural edits, field-boundary shifts (1-4 characters migrating from one literal to another so that the concatenation of the two values is unchanged: every ordered pair of numeric literals on the small packages, consecutive literals on the large ones, consecutive string values) and in-memory edits of the package value are executed through the real restore path. Also: levels whose orders share a timestamp, written in every listing order (6 / 24-120 sequences), ids rewritten as a whole into the other id format / another spelling / another id; the untouched package must restore the listed sequence (first visits of a draining match). A restore must fail, or yield exactly the snapshotted content (price, aggregates, every order field, re-snapshot text, maker sequence of a draining match); prefixes and unsupported versions must fail.",
    note="no assumption about SHA-256: every mutated input is executed; seeds as listed in the evidence",
    tech="exhaustive single- and double-fault enumeration (torn writes, byte edits, structural edits) on the serialized package, executed on the implementation"),
  "C16": dict(engine="gridmc", cat="exploration", ref="5 (C16), 3.4",
